@@ -1010,6 +1010,10 @@ func handleZRANGE(params internal.HandlerFuncParams) ([]byte, error) {
 		return nil, err
 	}
 
+	if err = validateRangeOptions(params.Command[4:]); err != nil {
+		return nil, err
+	}
+
 	key := keys.ReadKeys[0]
 	keyExists := params.KeysExist(params.Context, keys.ReadKeys)[key]
 
@@ -1144,6 +1148,10 @@ func handleZRANGE(params internal.HandlerFuncParams) ([]byte, error) {
 func handleZRANGESTORE(params internal.HandlerFuncParams) ([]byte, error) {
 	keys, err := zrangeStoreKeyFunc(params.Command)
 	if err != nil {
+		return nil, err
+	}
+
+	if err = validateRangeOptions(params.Command[5:]); err != nil {
 		return nil, err
 	}
 
